@@ -477,7 +477,7 @@ theorem badvers_reply (L Lu : Msg → Nat) (c : Consts) (cfg : Cfg) (proto : Pro
   refine ⟨_, rfl, rfl, cancelWithRcode_echoes _ _ _, rfl, rfl, rfl, ?_⟩
   simp only [cancelWithRcode, normalised]
   refine ⟨_, rfl, rfl, ?_⟩
-  exact stripECS_of_all_ecs _ (set0_options_ecs c cfg.ecs q.opt)
+  simp only [stripECS_of_all_ecs _ (set0_options_ecs c cfg.ecs q.opt), List.filter_nil]
 
 /-! ### clause 6 — the UDP size bound -/
 
@@ -662,7 +662,8 @@ sent none, and for an EDNS client one OPT without any option — the forwarded
 client subnet included — with empty sections and AD clear. -/
 theorem panic_reply (L Lu : Msg → Nat) (c : Consts) (cfg : Cfg) (proto : Proto) (q : Query) (wb : Bool)
     (next : Query → Outcome) (hop : q.opcode = 0) (hv : ∀ o, q.opt = some o → o.version = 0)
-    (hp : next (normalised q (setEdns0 c cfg.ecs q.opt)) = .panic) :
+    (hp : next (normalised q (setEdns0 c cfg.ecs q.opt)) = .panic ∨
+          next (normalised q (setEdns0 c cfg.ecs q.opt)) = .panicUndecoded) :
     ∃ r, serveGuarded L Lu c cfg proto q wb next = some r ∧ Echoes q r ∧ r.rcode = rcodeServFail ∧
       r.answer = [] ∧ r.ns = [] ∧ r.fl.ad = false ∧
       (q.opt = none → r.extra = []) ∧
@@ -671,25 +672,54 @@ theorem panic_reply (L Lu : Msg → Nat) (c : Consts) (cfg : Cfg) (proto : Proto
     cases h : q.opt with
     | none => rfl
     | some o => simp [setEdns0, hv o h]
+  have hecs := set0_options_ecs c cfg.ecs q.opt
   unfold serveGuarded
-  simp only [hop, Nat.lt_irrefl, if_false, hv0, ne_eq, not_true_eq_false, hp]
-  refine ⟨_, rfl, ?_, rfl, rfl, rfl, rfl, ?_, ?_⟩
-  · unfold Echoes cancelWithRcode restoreClientView normalised
-    cases q.opt.isNone <;> simp
-  · intro hq
-    simp [cancelWithRcode, restoreClientView, normalised, hq]
-  · intro o own ho
-    cases hq : q.opt with
-    | none => simp [cancelWithRcode, restoreClientView, normalised, hq] at ho
-    | some qo =>
-      simp only [cancelWithRcode, restoreClientView, normalised, hq, Option.isNone_some, Bool.false_eq_true,
-        if_false, Option.map_some, List.mem_singleton, RR.opt.injEq] at ho
-      obtain ⟨rfl, _⟩ := ho
-      refine ⟨?_, by simp⟩
-      simp only
-      have := set0_options_ecs c cfg.ecs (some qo)
-      rw [hq] at *
-      exact stripECS_of_all_ecs _ this
+  rcases hp with hp | hp
+  all_goals
+    simp only [hop, Nat.lt_irrefl, if_false, hv0, ne_eq, not_true_eq_false, hp]
+    refine ⟨_, rfl, ?_, rfl, rfl, rfl, rfl, ?_, ?_⟩
+    · simp only [Echoes, cancelWithRcode, clientView, restoreClientView, normalised]
+      cases q.opt.isSome <;> cases q.opt.isNone <;> simp
+    · intro hq
+      simp [cancelWithRcode, clientView, restoreClientView, normalised, hq]
+    · intro o own ho
+      cases hq : q.opt with
+      | none => simp [cancelWithRcode, clientView, restoreClientView, normalised, hq] at ho
+      | some qo =>
+        rw [hq] at hecs
+        simp only [cancelWithRcode, clientView, restoreClientView, normalised, hq, Option.isNone_some,
+          Option.isSome_some, Bool.false_eq_true, if_false, if_true, Option.map_some, List.mem_singleton,
+          RR.opt.injEq] at ho
+        obtain ⟨rfl, _⟩ := ho
+        refine ⟨?_, by simp⟩
+        first
+          | exact filter_cookie_of_all_ecs _ (fun x hx => hecs x (stripECS_sub _ x hx))
+          | exact filter_cookie_of_all_ecs _ hecs
+
+/-- **Every rcode rejection written by `Chain.CancelWithRcode`** — ratelimit's
+BADCOOKIE and reflex's REFUSED ahead of edns, BADVERS in it, recovery's SERVFAIL
+behind it — echoes the query and carries an OPT only if the request (as the
+client sent it: `clientView`) has one, holding nothing but COOKIE options: the
+client's subnet, keepalive, padding, NSID request and unknown codes never come back. -/
+theorem cancel_reply_options (reqNow : Query) (sent : Bool) (rc : Nat) (d : Bool) :
+    Echoes reqNow (cancelWithRcode (clientView reqNow sent) rc d) ∧
+    (sent = false → (cancelWithRcode (clientView reqNow sent) rc d).extra = []) ∧
+    (∀ o own, RR.opt o own ∈ (cancelWithRcode (clientView reqNow sent) rc d).extra →
+      ∀ x ∈ o.options, x.code = codeCookie ∧ ∃ ro, reqNow.opt = some ro ∧ x ∈ ro.options) := by
+  refine ⟨?_, ?_, ?_⟩
+  · unfold Echoes cancelWithRcode clientView; cases sent <;> simp
+  · intro hs; simp [cancelWithRcode, clientView, hs]
+  · intro o own ho x hx
+    cases sent with
+    | false => simp [cancelWithRcode, clientView] at ho
+    | true =>
+      cases hq : reqNow.opt with
+      | none => simp [cancelWithRcode, clientView, hq] at ho
+      | some ro =>
+        simp only [cancelWithRcode, clientView, if_true, hq, List.mem_singleton, RR.opt.injEq] at ho
+        obtain ⟨rfl, _⟩ := ho
+        simp only [List.mem_filter, beq_iff_eq] at hx
+        exact ⟨hx.2, ro, rfl, hx.1⟩
 
 /-- when the rest of the chain returns, the guarded handler is `EDNS.ServeDNS` / `serveWire`. -/
 theorem serveGuarded_done (L Lu : Msg → Nat) (c : Consts) (cfg : Cfg) (proto : Proto) (q : Query)
@@ -954,6 +984,11 @@ theorem wireOptionOk_ecs (d : List Nat) (h : wireOptionOk codeECS d = true) :
       · rename_i hf; right; right; exact ⟨hf, by simpa using h2⟩
       · cases h2
 
+-- non-vacuity: BADCOOKIE ahead of edns for a client that sent cookie + subnet + an unknown option: only the cookie comes back
+example : (cancelWithRcode (clientView { qDO0 with opt := some { udp := 1232, options := [.raw codeCookie [1, 2], .raw codeECS [0, 1, 24, 0, 1, 2, 3], .raw 65001 [9]] } } true) 23 false).extra =
+    [.opt { udp := 1232, options := [.raw codeCookie [1, 2]] } true] := by decide
+example : (serveGuarded (msgLen true) (msgLen false) {} { ecs := true } .udp { qDO0 with opt := none } true (fun _ => .panicUndecoded)).map (·.extra) = some [] := by decide
+
 -- non-vacuity: a panic behind edns for a client without EDNS and with [ecs] on
 example : serveGuarded (msgLen true) (msgLen false) {} { ecs := true } .udp
     { qDO0 with opt := none } false (fun _ => .panic) =
@@ -1092,5 +1127,34 @@ example : ((newWEntry nodata).bind (fun e => (serveWireInto e qDO0 qDO0.clientDO
     writeWire (fun _ => 100) {} (writerWire {} .udp qDO0) p.1 p.2))).map (fun r => (r.id, r.ns, r.extra.length)) =
     some (7, [.data .other 1 40 50], 1) := by decide
 example : (doqWriteMsg { nodata with id := 0x1234 }).id = 0 := rfl
+
+/-! ### the byte-path alias chase -/
+
+/-- **A composed alias chain asserts AD only when every segment was
+authenticated and the client did not set CD**, tells the writer chain exactly
+that (`info.ad` mirrors the body), and echoes the query. -/
+theorem chase_ad (alias : Msg) (segAD : List Bool) (answers : List RR) (sd : Bool) (q : Query) :
+    let p := composeChase alias segAD answers sd q
+    p.2.ad = p.1.fl.ad ∧ Echoes q p.1 ∧ (q.cd = true → p.1.fl.ad = false) ∧
+    (false ∈ segAD → p.1.fl.ad = false) ∧ (∀ rr ∈ p.1.extra, rr.isOpt = false) := by
+  refine ⟨rfl, ⟨rfl, rfl, rfl, rfl⟩, ?_, ?_, by simp [composeChase]⟩
+  · intro hcd; simp [composeChase, chaseAD, hcd]
+  · intro hmem
+    simp only [composeChase, chaseAD, Bool.and_eq_false_imp, List.all_eq_true, id]
+    intro hall
+    exact absurd (hall false hmem) (by simp)
+
+/-- **AD discipline for a composed chain on bytes**: whatever the stored AD
+bits, a client that set CD, or neither DO nor AD, never sees AD. -/
+theorem chase_hit_ad_discipline (L : Msg → Nat) (cfg : Cfg) (proto : Proto) (q : Query) (w : Writer)
+    (hw : WriterFor cfg proto q w) (alias : Msg) (segAD : List Bool) (answers : List RR) (sd : Bool) (r : Msg)
+    (hcl : q.cd = true ∨ (q.clientDO = false ∧ q.ad = false))
+    (h : writeWire L cfg w (composeChase alias segAD answers sd q).1 (composeChase alias segAD answers sd q).2 = some r) :
+    r.fl.ad = false :=
+  writeWire_ad L cfg proto q w hw _ r _ (chase_ad alias segAD answers sd q).1 hcl h
+
+-- non-vacuity: a validated alias (AD=1) onto an insecure target (AD=0), asked by a client with neither DO nor AD
+example : ((composeChase { nodata with fl := { qr := true, ad := true } } [true, false] [.data .other 1 20 30, .data .other 2 20 30] false qDO0).1.fl.ad,
+           (composeChase { nodata with fl := { qr := true, ad := true } } [true, true] [] false qDO0).1.fl.ad) = (false, true) := by decide
 
 end SdnsVerif.Props.C06
